@@ -735,8 +735,9 @@ func (t *T) cleanup() {
 // skipping (invalid data) from a Cleanup function can not undo that failure,
 // while a Cleanup function that fails itself still replaces it.
 func (t *T) cleanupAfterFailure() {
+	done := false
 	defer func() {
-		if r := recover(); r != nil {
+		if r := abnormalEnd(recover(), done); r != nil {
 			if _, ok := r.(invalidData); !ok {
 				panic(r)
 			}
@@ -744,6 +745,7 @@ func (t *T) cleanupAfterFailure() {
 	}()
 
 	t.cleanup()
+	done = true
 }
 
 func (t *T) Logf(format string, args ...any) {
